@@ -50,6 +50,11 @@ func randGen(rng *rand.Rand, profile string) GenSpec {
 	g.Bcn.Max = g.Bcn.Def + uint64(rng.Intn(4))
 	vf := [][2]int64{{0, 1}, {1, 100}, {1, 2}, {1, 1}, {1, 4}}[rng.Intn(5)]
 	g.Str.FeeNum, g.Str.FeeDen = vf[0], vf[1]
+	if (profile == "ent" || profile == "mix") && rng.Intn(2) == 0 {
+		// a purchaser whose funds are still vesting (delayed vesting, nothing vested inside a scenario)
+		who := []string{"A3", "A4"}[rng.Intn(2)]
+		g.Vesting = map[string]map[string]int64{who: {"nund": int64(100 + 100*rng.Intn(3)), "other": 0}}
+	}
 	return g
 }
 
